@@ -360,7 +360,7 @@ func cmdCheck(prop, tier, only string, workers int) int {
 // harnessSolver: harnesses whose name ends in _arith use cvc5 with int-blasting.
 func harnessSolver(name, def string) string {
 	if strings.Contains(name, "_arith") {
-		return "cvc5-int"
+		return "portfolio"
 	}
 	if strings.Contains(name, "_cvc5") {
 		return "cvc5"
@@ -464,7 +464,7 @@ func writeEvidence(prop, tier string, seed int, meta Meta, hrs []*HarnessResult,
 			"functions_encoded":             fl,
 			"library_functions_encoded":     nLib,
 			"bounds":                        meta.Bounds,
-			"queries":                       map[string]any{"total": gStats.Queries, "sat": gStats.Sat, "unsat": gStats.Unsat, "unknown": gStats.Unknown},
+			"queries":                       map[string]any{"portfolio_fallbacks": gStats.Fallbacks, "total": gStats.Queries, "sat": gStats.Sat, "unsat": gStats.Unsat, "unknown": gStats.Unknown},
 			"solver_s":                      map[string]any{"z3": float64(gStats.NanosZ3) / 1e9, "cvc5": float64(gStats.NanosCVC) / 1e9},
 			"stubs_hit":                     stubs,
 			"reach_labels":                  reach,
